@@ -19,16 +19,17 @@ ID = "C09"
 hang_is_violation = False
 
 TIERS = {
-    "quick": {"budget_s": 75, "exhaustive_len": 3, "max_ops": 8, "size": (2, 10), "pool": (2, 3), "run_timeout": 90.0,
+    "quick": {"budget_s": 75, "exhaustive_len": 2, "alphabet_random": 0.4, "max_ops": 8, "size": (2, 10), "pool": (2, 3), "run_timeout": 90.0,
               "determinism_every": 40},
-    "thorough": {"budget_s": 1200, "exhaustive_len": 4, "max_ops": 12, "size": (2, 22), "pool": (3, 5),
+    "thorough": {"budget_s": 1200, "exhaustive_len": 4, "alphabet_random": 0.2, "max_ops": 12, "size": (2, 22), "pool": (3, 5),
                  "run_timeout": 120.0, "determinism_every": 300, "determinism_max": 200},
 }
 
-RULE = ("first, bounded-exhaustively: every history of length <= 3 (quick) / <= 4 (thorough) over "
-        "the alphabet {create(f2003), create(f2008), 5 fixed valid, 5 fixed invalid programs}, "
+RULE = ("first, bounded-exhaustively: every history of length <= 2 (quick) / <= 4 (thorough) over "
+        "the alphabet {create(f2003), create(f2008), 5 fixed valid, 5 fixed invalid programs, 2 files "
+        "that INCLUDE a same-named file from different directories}, "
         "each followed by create(s); parse(x) for both standards and 4 fixed probe programs "
-        "(1884 / 22620 runs, enumerated by run index); then, for the rest of the budget, one "
+        "(210 / 41370 runs; longer histories over the same alphabet are sampled, enumerated by run index); then, for the rest of the budget, one "
         "run = one seeded history of <=12 operations over {create(f2003|f2008|None|invalid), "
         "parse(valid_i|invalid_j, reader options, reader kind, stream fault at line k), direct "
         "rule use, fparser1 api.parse, print of an earlier tree, edit of an earlier tree, memo "
@@ -50,7 +51,7 @@ COMPONENTS = {
     "stub": ["the caller (seeded history)", "line stream with EOF / error at line k",
              "process exit (SystemExit trap)"],
 }
-PROBES = ["exhaustive_history_run", "failing_parse_scope_depth_ge2", "main_program0_path", "same_unit_name_consecutive",
+PROBES = ["sampled_alphabet_history_run", "history_with_include_files", "exhaustive_history_run", "failing_parse_scope_depth_ge2", "main_program0_path", "same_unit_name_consecutive",
           "compared_in_clean_state", "compared_after_failure", "block_counter_nonzero_at_compare",
           "fparser1_interleaved", "create_switches_std", "stream_fault_failure",
           "failure_in_unclean_state", "exit_trapped"]
@@ -225,7 +226,16 @@ ALPHABET_POOL = {
           "end subroutine s\nend module m\n",
     "X3": "program p\nx = max(1, 2)\nblock\ny = 1\nend block\nend program p\n",
 }
-ALPHABET = ["c03", "c08", "V1", "V2", "V3", "V4", "V5", "I1", "I2", "I3", "I4", "I5"]
+ALPHABET = ["c03", "c08", "V1", "V2", "V3", "V4", "V5", "I1", "I2", "I3", "I4", "I5", "Fa", "Fb"]
+# the fixed file system of the alphabet: two directories whose main files INCLUDE a file of the
+# same name with different content
+ALPHABET_FS = {
+    "a/main.f90": " program incl\n include 'frag.inc'\n end program incl\n",
+    "a/frag.inc": " integer :: from_a\n from_a = 1\n",
+    "b/main.f90": " program incl\n include 'frag.inc'\n end program incl\n",
+    "b/frag.inc": " real :: from_b\n from_b = sin(2.0)\n",
+}
+FILE_SYMS = {"Fa": "a/main.f90", "Fb": "b/main.f90"}
 
 
 def exhaustive_count(max_len):
@@ -254,14 +264,21 @@ def _exhaustive_case(index):
             ops.append(["create", "f2003"])
         elif sym == "c08":
             ops.append(["create", "f2008"])
+        elif sym in FILE_SYMS:
+            ops.append(["parse", FILE_SYMS[sym], plain, "file", None])
         else:
             ops.append(["parse", sym, plain, "string", None])
     for std in ("f2003", "f2008"):
         for x in ("X1", "X2", "X3", "X4"):
             ops.append(["create", std])
             ops.append(["parse", x, plain, "string", None])
-    return {"prop": ID, "pool": dict(ALPHABET_POOL), "ops": ops, "exhaustive_index": index,
-            "history": hist}
+        for path in ("b/main.f90", "a/main.f90"):
+            ops.append(["create", std])
+            ops.append(["parse", path, plain, "file", None])
+    pool = dict(ALPHABET_POOL)
+    pool.update(ALPHABET_FS)
+    return {"prop": ID, "pool": pool, "ops": ops, "exhaustive_index": index,
+            "history": hist, "fs": dict(ALPHABET_FS)}
 
 
 def prepare(cfg):
@@ -272,6 +289,9 @@ def prepare(cfg):
     for std in ("f2003", "f2008"):
         for key, text in sorted(ALPHABET_POOL.items()):
             refs["%s|%s" % (std, key)] = ref.outcome(std, "string", text, plain)
+        for path in sorted(FILE_SYMS.values()):
+            refs["%s|%s" % (std, path)] = ref.outcome(std, "file", path, plain,
+                                                      image=dict(ALPHABET_FS))
     return {"_cache_refs": refs}
 
 
@@ -283,6 +303,15 @@ def generate(run_seed, cfg):
         return case
     st = rng.Streams(run_seed)
     sw = st("swarm")
+    if sw.random() < cfg.get("alphabet_random", 0):
+        # a longer history over the same alphabet, sampled (lengths beyond the exhaustive bound)
+        n = sw.randrange(cfg.get("exhaustive_len", 2) + 1, 7)
+        index = exhaustive_count(n - 1) + sw.randrange(len(ALPHABET) ** n)
+        case = _exhaustive_case(index)
+        case["sampled_alphabet_history"] = True
+        if cfg.get("_cache_refs"):
+            case["_cache_refs"] = cfg["_cache_refs"]
+        return case
     npool = sw.randrange(cfg["pool"][0], cfg["pool"][1] + 1)
     pool = {}
     fr = st("faults")
@@ -350,7 +379,32 @@ def generate(run_seed, cfg):
                ["parse", sw.choice(keys), {"ignore_comments": True}, "string", None])
     if ops[-1][0] == "create":
         ops.append(["parse", sw.choice(keys), {"ignore_comments": True}, "string", None])
-    return {"prop": ID, "pool": pool, "ops": ops}
+    case = {"prop": ID, "pool": pool, "ops": ops}
+    if sw.random() < 0.3:
+        # file-system dimension: two directories with a main file each that INCLUDEs a file of
+        # the same name but different content (or, in b, no such file at all); histories that
+        # read one and then the other must still give the fresh-process result for each
+        frag_a = " integer :: from_a\n from_a = 1\n"
+        frag_b = " real :: from_b\n from_b = sin(2.0)\n"
+        main = " program incl\n include 'frag.inc'\n end program incl\n"
+        bad = " program incl\n include 'frag.inc'\n x = = 1\n end program incl\n"
+        image = {"a/main.f90": main, "a/frag.inc": frag_a, "a/bad.f90": bad,
+                 "b/main.f90": main, "b/bad.f90": bad}
+        if sw.random() < 0.7:
+            image["b/frag.inc"] = frag_b
+        case["fs"] = image
+        fops = []
+        for _ in range(sw.randrange(2, 5)):
+            path = sw.choice(["a/main.f90", "b/main.f90", "a/bad.f90", "b/bad.f90",
+                              "a/main.f90", "b/main.f90"])
+            fops.append(["parse", path, {"ignore_comments": True}, "file", None])
+            if sw.random() < 0.4:
+                fops.append(["create", sw.choice(["f2003", "f2008"])])
+        pos = sw.randrange(1, len(ops))
+        case["ops"] = ops[:pos] + fops + ops[pos:]
+        for path in image:
+            case["pool"][path] = image[path]
+    return case
 
 
 def sample_view(case):
@@ -438,18 +492,28 @@ def execute(case):
         elif op[0] == "parse":
             key = (std, op[1], repr(sorted(op[2].items())), op[3], repr(op[4]))
             cached = (case.get("_cache_refs") or {}).get("%s|%s" % (std, op[1]))
-            if key not in refs and cached is not None and op[3] == "string" and \
-                    op[2] == {"ignore_comments": True}:
+            if key not in refs and cached is not None and op[3] in ("string", "file") and \
+                    op[2] == {"ignore_comments": True} and "exhaustive_index" in case:
                 refs[key] = cached
             if key not in refs:
                 if op[3] == "lines":
                     refs[key] = _ref_lines(std, pool[op[1]], op[2], op[4])
+                elif op[3] == "file":
+                    refs[key] = ref.outcome(std, "file", op[1], op[2], image=case["fs"])
                 else:
                     refs[key] = ref.outcome(std, "string", pool[op[1]], op[2])
     host.install_log_counter()
+    fs = None
+    if case.get("fs"):
+        fs = host.SimFS({k: v.encode("utf-8") for k, v in case["fs"].items()}, {},
+                        stats).install("c09-%d" % os.getpid())
+        probe("history_with_include_files")
     if "exhaustive_index" in case:
-        probe("exhaustive_history_run")
-        stats.setdefault("counters", {})["exhaustive_len_%d" % len(case["history"])] = 1
+        if case.get("sampled_alphabet_history"):
+            probe("sampled_alphabet_history_run")
+        else:
+            probe("exhaustive_history_run")
+            stats.setdefault("counters", {})["exhaustive_len_%d" % len(case["history"])] = 1
 
     parser = None
     std = None
@@ -500,7 +564,10 @@ def execute(case):
             if prev_parse_key == op[1]:
                 probe("same_unit_name_consecutive")
             prev_parse_key = op[1]
-            reader = fp.make_reader(op[3], text, op[2], stats=stats, stream=op[4])
+            if op[3] == "file":
+                reader = fp.make_reader("file", op[1], op[2], fs=fs, stats=stats)
+            else:
+                reader = fp.make_reader(op[3], text, op[2], stats=stats, stream=op[4])
             outcome, tree, exc = fp.parse_with(parser, reader, want_tree=True)
             after_scope, after_tables = fp.tables_snapshot()
             events.append(["parse", op[1], op[3], op[4], fp.outcome_digest(outcome), clean,
@@ -612,6 +679,8 @@ def execute(case):
                         0 if msize <= 0 else len(str(msize))))
     state_keys.add(("seq",) + tuple(kinds_seq[:6]))
     stats["logical"]["ops"] = len(ops)
+    if fs is not None:
+        fs.uninstall()
     return {"events": events, "violations": violations, "stats": stats,
             "nontrivial": had_failure_then_compare or ncreate >= 2,
             "state_keys": [list(map(str, s)) for s in sorted(state_keys, key=str)],
